@@ -355,6 +355,14 @@ func faultedStreams(base []byte, rng *splitmix, maxExhaustive int, samples int, 
 				return
 			}
 		}
+		if rng.chance(8) {
+			// more than a mebibyte of blank lines, then something that is not Yarn: a loader that stops reading
+			// early would never see it (blank lines cost the lexer one token)
+			far := append(append(append([]byte{}, base...), []byte(strings.Repeat(nl, 1<<20+rng.intn(1<<16)))...), []byte("garbage here"+nl)...)
+			if !emit(streamCase{Kind: "garbage_after_a_mebibyte", Readers: oneReader(far), Seed: "a1"}) {
+				return
+			}
+		}
 	}
 	emit(streamCase{Kind: "empty", Readers: oneReader(nil), Seed: "a1"})
 	return exhaustive
